@@ -52,6 +52,9 @@ type C11Case struct {
 	// Stack: "" plain listener | "pp" PROXY-protocol listener (every client sends a v1 header first; a connection in
 	// phase pp-pending has not sent it yet when shutdown begins - it is "accepted" but not yet being served)
 	Stack string `json:"stack,omitempty"`
+	// NoLimit (forwarder mode): shutdown-timeout is 0 - "no limit": the drain lasts until every connection is done
+	// (the harness closes what is still open once the exchanges in flight have been judged)
+	NoLimit bool `json:"no_limit,omitempty"`
 }
 
 func genC11(t *rapid.T) C11Case {
@@ -67,6 +70,14 @@ func genC11(t *rapid.T) C11Case {
 			BodyLen: rapid.SampledFrom([]int{0, 10, 5000, 70000}).Draw(t, "bodylen")})
 		if c.Conns[i].Phase == "at-origin" && rapid.IntRange(0, 2).Draw(t, "upgrade") == 0 {
 			c.Conns[i].Upgrade, c.Conns[i].BodyLen = true, 0
+		}
+	}
+	if c.Mode == "forwarder" && rapid.IntRange(0, 3).Draw(t, "nolimit") == 0 {
+		c.NoLimit = true
+		for i := range c.Conns {
+			if c.Conns[i].Phase == "tunnel" || c.Conns[i].Phase == "partial-head" {
+				c.Conns[i].Phase = "at-origin"
+			}
 		}
 	}
 	if c.Stack == "pp" && c.Mode == "forwarder" && rapid.Bool().Draw(t, "ppexpired") {
@@ -150,6 +161,9 @@ func runC11once(c C11Case) (fails []vstat.Failure) {
 	defer lag.stop()
 	id := caseSeq.Add(1)
 	deadline := time.Duration(c.DeadlineMs) * time.Millisecond
+	if c.NoLimit && c.Mode == "forwarder" {
+		deadline = time.Hour // nothing is cut off by time
+	}
 
 	// ---- proxy under test
 	var (
@@ -174,7 +188,7 @@ func runC11once(c C11Case) (fails []vstat.Failure) {
 		go func() { serveDone <- bare.Serve(bareLn) }()
 		addr = ln.Addr().String()
 	} else {
-		o := ProxyOpts{ShutdownTimeout: deadline, ShutdownSignals: []os.Signal{syscall.SIGUSR1}}
+		o := ProxyOpts{ShutdownTimeout: deadline, NoShutdownTimeout: c.NoLimit, ShutdownSignals: []os.Signal{syscall.SIGUSR1}}
 		if c.Stack == "pp" {
 			o.ProxyProtocol = &forwarder.ProxyProtocolConfig{ReadHeaderTimeout: c11PPTimeout}
 		}
@@ -597,9 +611,23 @@ func runC11once(c C11Case) (fails []vstat.Failure) {
 		}
 	} else {
 		// forwarder: Run drains for at most ShutdownTimeout, then closes everything and returns
+		runWait := deadline + 5*time.Second
+		if c.NoLimit {
+			runWait = 5 * time.Second
+		}
+		if c.NoLimit && !signalled {
+			// everything in flight has been judged: the harness lets go of what it still holds, the drain can end
+			for _, cl := range clients {
+				if !cl.gone {
+					cl.conn.Close()
+					cl.gone = true
+				}
+			}
+			runWait = 5 * time.Second
+		}
 		select {
 		case <-fw.Done():
-		case <-time.After(deadline + 5*time.Second):
+		case <-time.After(runWait):
 			fails = append(fails, vstat.Failf(key("run-hangs"), "Run did not return %v after the %v drain time-out", 5*time.Second, deadline))
 		}
 		for i, cl := range clients {
@@ -683,6 +711,9 @@ func classifyC11(c C11Case) (bool, string, []string) {
 	}
 	for _, a := range c.Acts {
 		cls = append(cls, "act-"+a.Op)
+	}
+	if c.NoLimit && c.Mode == "forwarder" {
+		cls = append(cls, "drain-without-time-limit")
 	}
 	return len(phases) >= 2 && inflight, fmt.Sprintf("%+v", c), dedupStrings(cls)
 }
